@@ -13,6 +13,7 @@ on a tree whose `wait()` raises per batch; `C10_pinned_stop_not_quiescent` shows
 -/
 import Frequenz.Lemmas.ActorRun
 import Frequenz.Lemmas.ActorCancelAwait
+import Frequenz.Lemmas.ActorTie
 
 open Actor
 open Extracted.Actor (restartAllowed restartDelayUs delayApplies)
@@ -480,3 +481,78 @@ def C10_statement : Prop :=
 
 theorem C10_full : C10_statement :=
   ⟨C10_restart_iff, C10_single_run, C10_stop_quiescent_and_surfaces, C10_run_all, C10_cancel_and_await_quiescent⟩
+
+/-! ## model is source -/
+
+section ModelIsSource
+open Extracted.ActorLoops Actor.Tie
+
+/-- **Tie by proof.**  Every atomic step of the hand-written event machine the theorems above are about IS the
+corresponding segment of the coroutine as machine-translated from the current source (`Extracted/ActorLoops.lean`,
+regenerated by `tools/extractors/actor_loops.py` on every run), for all states and arguments:
+
+* `Actor._run_loop` (with `_delay_if_restart`): the first step of a run-loop task is the translated code up to the first
+  await; a step in `.delay n u` is the code resumed from `asyncio.sleep(RESTART_DELAY)` (sleep over at/after `u`, or
+  cancelled meanwhile: the `except` clauses decide); a step `.fin o` in `.running n` is the code resumed from
+  `await self._run()` with outcome `o` — `try/except` dispatch by exception kind, restart counting, limit test,
+  `continue` into the next iteration with its delay, or the end of the task; and over a whole script of invocations
+  (any length, outcomes, cancellations during delays, an invocation that never ends) the machine produces exactly the
+  phase and entry/exit history the translated source produces (`run_is_source`);
+* `Actor.start` (guard `is_running`, `clear`, register the run-loop task), the per-actor body of `run(*actors)` and
+  the fact that each of its `wait()` tasks waits for its own actor;
+* `BackgroundService.wait / stop / _wait_all / cancel`: `Svc.call` is the translated code up to the first
+  `asyncio.wait`, `Svc.wake` the code resumed from it — removal of the finished tasks, collection of their
+  `task.result()` errors, loop test, cancel-every-round (stop), the raised group, `CancelledError` filtering (stop);
+* `cancel_and_await`: `CA.step .call` and `.wake`.
+
+Not from the source (assumptions of the machine, sampled by the differential check): delivery of cancellations and
+timers, `asyncio.wait` returning its snapshot, set iteration order, and `run()`'s own wait loop (`Sys.runWait`,
+`Sys.runReturn`).  A semantic edit of the Python changes the translation and breaks this theorem (or the translator
+raises); a behaviour-preserving rewrite does not. -/
+theorem C10_model_is_source :
+    (∀ (lim : Option Nat) (now : Int) (r : StepRes) (t : Tsk), t.phase = .fresh → t.cancelReq = false →
+      view (t.step lim now r) = run_loop_entry lim now t.hist) ∧
+    (∀ (lim : Option Nat) (now : Int) (r : StepRes) (t : Tsk) (n : Nat) (u : Int), t.phase = .delay n u →
+      (t.cancelReq = true → view (t.step lim now r) = run_loop_after_sleep lim n true now t.hist) ∧
+      (t.cancelReq = false → u ≤ now → view (t.step lim now r) = run_loop_after_sleep lim n false now t.hist) ∧
+      (t.cancelReq = false → now < u → t.step lim now r = t)) ∧
+    (∀ (lim : Option Nat) (now : Int) (t : Tsk) (n : Nat) (o : Outcome), t.phase = .running n →
+      view (t.step lim now (.fin o)) = run_loop_after_run lim n o now t.hist) ∧
+    (∀ (lim : Option Nat) (script : List Iter) (t : Tsk) (now : Int),
+      view (modelRun lim script t now) = srcRun lim script (view t) now) ∧
+    (∀ s : Svc, s.start = { s with tasks := start_entry s.tasks }) ∧
+    (∀ s : Svc, startIfIdle s = { s with tasks := run_start_one s.tasks }) ∧
+    (∀ (y : Sys) (actors : List Nat),
+      (y.runCall actors).runs = y.runs ++ [{ actors := actors.filter (fun a => a < y.svcs.length),
+                                             pending := (actors.filter (fun a => a < y.svcs.length)).map run_waits_for,
+                                             waiters := [], returned := none }]) ∧
+    (∀ (s : Svc) (k : CallKind), s.mode = fixedMode →
+      s.call k = { s with tasks := tasksOfRes (entryOf k s.tasks),
+                          callers := s.callers ++ [{ kind := k, st := stOf s.now s.tasks.length (entryOf k s.tasks),
+                                                     acc := [], reaped := [] }] }) ∧
+    (∀ (s : Svc) (c : Nat) (cl : Caller) (batch : List Nat), s.mode = fixedMode → s.callers[c]? = some cl →
+      cl.st = .blocked batch → batchDone s.tasks batch = true →
+      s.wake c = { s with tasks := tasksOfRes (resumeOf cl.kind batch s.tasks cl.acc),
+                          callers := s.callers.set c
+                            { cl with st := stOf s.now s.tasks.length (resumeOf cl.kind batch s.tasks cl.acc),
+                                      acc := cl.acc ++ errorsOf s.tasks batch, reaped := cl.reaped ++ batch } }) ∧
+    (∀ s : CA.St, CA.step s .call = { s with task := (caa_entry s.task).1,
+                                             callers := s.callers ++ [caCallSt s.now (caa_entry s.task).2] }) ∧
+    (∀ (s : CA.St) (c : Nat) (o : Outcome), s.callers[c]? = some .awaiting → s.task.phase = .done o →
+      (caa_after_task s.task o).1 = s.task ∧
+      CA.step s (.wake c) = { s with callers := s.callers.set c (caWakeSt s.now (caa_after_task s.task o).2) }) :=
+  ⟨fresh_is_source, delay_is_source, running_is_source, run_is_source, start_is_source, run_start_is_source,
+   run_waiters_is_source, call_is_source, fun s c cl batch hm hc hst hb => wake_is_source s c cl batch hm hc hst hb, caa_call_is_source,
+   caa_wake_is_source⟩
+
+/-- Non-vacuity: the translated source run on a script — limit 1; invocation 0 raises an `ExceptionGroup` after 1 s and
+is restarted after the 2 s delay, invocation 1 raises a `BaseExceptionGroup` that is no `ExceptionGroup`: the task ends
+with it; and the translated `stop()` resumed on a table whose only task ended with an Exception raises exactly it. -/
+example :
+    srcRun (some 1) [⟨false, 1000000, some .excGroup⟩, ⟨false, 1000000, some .baseGroup⟩] (run_loop_entry (some 1) 0 []) 0
+      = (.done .baseGroup, [.exit 1 .baseGroup 4000000, .enter 1 3000000, .exit 0 .excGroup 1000000, .enter 0 0]) ∧
+    stOf 7 1 (stop_after_wait [0] [{ newExtraTask 0 with phase := .done .exc }] [(5, .cancelled)])
+      = .finished [(0, .exc)] 7 1 := by
+  decide
+
+end ModelIsSource
